@@ -39,6 +39,23 @@ SEQ = TensorDictSequential(MOD_M, TensorDictModule(_dbl, in_keys=["m"], out_keys
 SEQ_SEL = TensorDictSequential(MOD_M, MOD_NEST, selected_out_keys=["m"])
 
 
+LINEAR = torch.nn.Linear(1, 1)
+with torch.no_grad():
+    LINEAR.weight.fill_(1.0); LINEAR.bias.fill_(0.0)
+PARAMS = TensorDict.from_module(LINEAR).apply(lambda p: p.data * 3 + 1).lock_()
+
+
+def _mk_prob():
+    from tensordict.nn import ProbabilisticTensorDictModule, ProbabilisticTensorDictSequential, InteractionType
+    from torch.distributions import Normal
+    prob = ProbabilisticTensorDictModule(in_keys=["loc", "scale"], out_keys=["sample"], distribution_class=Normal,
+                                         default_interaction_type=InteractionType.DETERMINISTIC)
+    return ProbabilisticTensorDictSequential(TensorDictModule(lambda x: x + 1, in_keys=["loc"], out_keys=["loc"]), prob)
+
+
+PROB = _mk_prob()
+
+
 def names_for(n, prefix="d"):
     return [f"{prefix}{i}" for i in range(n)]
 
@@ -575,6 +592,297 @@ def _(td):
 def _(td):
     m = MOD_M(a=td.get("a"))
     td = td.clone(False); td.set("dk", m); return td
+
+
+# ---------------------------------------------------------------- `.to(...)` spellings (`_parse_to` compile twin)
+@op("to_dtype_pos")
+def _(td):
+    return td.to(torch.float64)
+
+
+@op("to_dtype_kw")
+def _(td):
+    return td.to(dtype=torch.int32)
+
+
+@op("to_tensor")
+def _(td):
+    return td.to(torch.zeros(1, dtype=torch.int16))
+
+
+@op("to_dev_dtype_nb")
+def _(td):
+    return td.to("cpu", torch.float32, True)
+
+
+@op("to_memory_format")
+def _(td):
+    return td.to(memory_format=torch.contiguous_format)
+
+
+@op("float_int")
+def _(td):
+    return td.float().int()
+
+
+# ---------------------------------------------------------------- ops used as context managers (`__exit__` write-back; compile branch in __exit__)
+@op("ctx_unsqueeze")
+def _(td):
+    td = td.clone()
+    with td.unsqueeze(0) as t:
+        t.set("cu", t.get("a") + 1)
+    return td
+
+
+@op("ctx_transpose")
+def _(td):
+    td = td.clone()
+    with td.transpose(0, 1) as t:
+        t.set("ct", t.get("a") * 2)
+    return td
+
+
+@op("ctx_flatten_keys")
+def _(td):
+    td = td.clone()
+    with td.flatten_keys(".") as t:
+        t.set("cf.x", t.get("a") + 4)
+    return td
+
+
+@op("ctx_view")
+def _(td):
+    td = td.clone()
+    with td.view(-1) as t:
+        t.set("cv", t.get("a") - 1)
+    return td
+
+
+@op("ctx_unlock")
+def _(td):
+    td = td.clone().lock_()
+    with td.unlock_() as t:
+        t.set("cul", t.get("a") + 2)
+    return td
+
+
+@op("ctx_permute")
+def _(td):
+    td = td.clone()
+    with td.permute(*tuple(range(td.batch_dims))[::-1]) as t:
+        t.set("cp", t.get("a") + 6)
+    return td
+
+
+# ---------------------------------------------------------------- in-place / value ops
+@op("apply_inplace")
+def _(td):
+    td = td.clone(); td.apply_(lambda x: x + 2); return td
+
+
+@op("update_inplace")
+def _(td):
+    td = td.clone(); td.update_(td.apply(lambda x: x * 3)); return td
+
+
+@op("set_inplace")
+def _(td):
+    td = td.clone(); td.set_("a", td.get("a") * 0 + 5); return td
+
+
+@op("fill_key")
+def _(td):
+    td = td.clone(); td.fill_("a", 7); return td
+
+
+@op("zero_")
+def _(td):
+    td = td.clone(); td.zero_(); return td
+
+
+@op("masked_fill")
+def _(td):
+    mask = td.get("a") > 1
+    return td.masked_fill(mask, 0)
+
+
+@op("where_td")
+def _(td):
+    return td.where(td.get("a") > 1, td * 10)
+
+
+@op("torch_where")
+def _(td):
+    return torch.where(td.get("a") > 1, td, td + 100)
+
+
+@op("zeros_like")
+def _(td):
+    return torch.zeros_like(td)
+
+
+@op("ones_like_add")
+def _(td):
+    return torch.ones_like(td) + td
+
+
+@op("full_like")
+def _(td):
+    return torch.full_like(td, 3)
+
+
+@op("new_zeros")
+def _(td):
+    return td.new_zeros(2, 2)
+
+
+@op("empty_set")
+def _(td):
+    e = td.empty(); e.set("only", td.get("a")); return e
+
+
+@op("gather0")
+def _(td):
+    idx = torch.zeros(td.batch_size, dtype=torch.int64)
+    return td.gather(0, idx)
+
+
+@op("repeat_interleave")
+def _(td):
+    return td.repeat_interleave(2, dim=0)
+
+
+@op("repeat")
+def _(td):
+    return td.repeat(2, *([1] * (td.batch_dims - 1)))
+
+
+@op("split_list")
+def _(td):
+    return td.split([1, td.batch_size[0] - 1], 0)[-1]
+
+
+@op("squeeze0")
+def _(td):
+    return td.squeeze(0)
+
+
+@op("unsqueeze_neg2")
+def _(td):
+    return td.unsqueeze(-2)
+
+
+@op("batch_size_set")
+def _(td):
+    td = td.clone(False); td.batch_size = td.batch_size[:1]; return td
+
+
+@op("auto_batch_size")
+def _(td):
+    td = td.clone(False); td.batch_size = []; td.auto_batch_size_(); return td
+
+
+@op("eq_td")
+def _(td):
+    return td == td.apply(lambda x: x * (x % 2))
+
+
+@op("lt_scalar")
+def _(td):
+    return td < 3
+
+
+@op("all_any")
+def _(td):
+    t2 = td.clone(False)
+    t2.set("all", td.get("a") * (1 if (td > -1).all() else 0) + (10 if (td > 2).any() else 20))
+    return t2
+
+
+@op("cumsum0")
+def _(td):
+    return td.apply(lambda x: x.cumsum(0))
+
+
+@op("clamp")
+def _(td):
+    return td.clamp(1, 4)
+
+
+@op("max0")
+def _(td):
+    return td.max(0).values if hasattr(td.max(0), "values") else td.max(0)
+
+
+@op("mean_float")
+def _(td):
+    return td.float().mean(0)
+
+
+@op("prod_last")
+def _(td):
+    return td.prod(-1)
+
+
+@op("detach_grad")
+def _(td):
+    return td.float().requires_grad_().detach()
+
+
+# ---------------------------------------------------------------- non-tensor data (`_is_non_tensor`, `_pass_through_cls` memo off under compile)
+@op("set_nontensor")
+def _(td):
+    td = td.clone(False); td.set("label", "a string"); return td
+
+
+@op("nontensor_stack")
+def _(td):
+    t1 = td.clone(False); t1.set("label", "x")
+    t2 = td.clone(False); t2.set("label", "y")
+    return torch.stack([t1, t2], 0)
+
+
+@op("nontensor_same_stack")
+def _(td):
+    t1 = td.clone(False); t1.set("label", "same")
+    return torch.stack([t1, t1.clone(False)], 0)
+
+
+# ---------------------------------------------------------------- legacy switches (`_ContextManager.get_mode/set_mode`)
+@op("lazy_legacy_stack")
+def _(td):
+    from tensordict.utils import set_lazy_legacy
+    with set_lazy_legacy(True):
+        return torch.stack([td, td + 1], 0)
+
+
+@op("stack_out")
+def _(td):
+    out = torch.stack([td, td], 0).clone()
+    torch.stack([td * 2, td * 3], 0, out=out)
+    return out
+
+
+@op("cat_last")
+def _(td):
+    return torch.cat([td, td * 2], -1)
+
+
+# ---------------------------------------------------------------- functional module call (`_to_module` has an is_dynamo path)
+@op("to_module")
+def _(td):
+    with PARAMS.to_module(LINEAR):
+        y = LINEAR(td.get("a").reshape(-1, 1).float())
+    td = td.clone(False); td.set("lin", y.reshape(td.batch_size).round().long()); return td
+
+
+@op("prob_module")
+def _(td):
+    t = td.clone(False)
+    t.set("loc", t.get("a").float()); t.set("scale", t.get("a").float() * 0 + 1)
+    out = PROB(t)
+    out.set("sample", out.get("sample").round().long())
+    return out.exclude("loc", "scale")
 
 
 # ---------------------------------------------------------------- terminal ops (plain python out)
